@@ -24,12 +24,12 @@ func Structural() []Tok {
 	return out
 }
 
-// FullAlphabet is the 32-token alphabet of G1.
+// FullAlphabet is the 35-token alphabet of G1.
 func FullAlphabet() []Tok {
 	out := []Tok{
 		Term(Word("a")), Term(Word("b")), Term(Int(5)), Term(Int(-3)), Term(IntSrc("010")), Term(Float("1.5")),
 		Term(Quoted("q r")), Term(Quoted("")), Term(Wild("w*")), Term(Wild("?")), Term(Wild("*")),
-		Term(Regexp("r x")), Term(EscapedWord("x:y")), RawTerm("'s'"),
+		Term(Regexp("r x")), Term(EscapedWord("x:y")), RawTerm("'s'"), Term(Quoted("w*")), Term(Quoted("/r/")), Term(EscapedWord("a*b")),
 	}
 	return append(out, Structural()...)
 }
